@@ -10,6 +10,7 @@ use std::thread;
 use std::time::Duration;
 
 #[derive(Archive, Deserialize, Serialize, Debug, Clone)]
+#[archive(check_bytes)]
 pub struct CleanMarkerRecord {
     pub generation: u64,
     pub is_clean: bool,
@@ -38,12 +39,17 @@ impl CleanMarkerStore {
             if bytes.is_empty() {
                 HashMap::new()
             } else {
-                // SAFETY: file contents come from our previous rkyv serialization
-                let archived =
-                    unsafe { rkyv::archived_root::<HashMap<String, CleanMarkerRecord>>(&bytes) };
-                archived
-                    .deserialize(&mut rkyv::Infallible)
-                    .unwrap_or_default()
+                // The file may be damaged or half written: validate it (from an aligned
+                // copy) instead of trusting it, and fall back to no markers if it is bad.
+                let mut aligned = rkyv::AlignedVec::with_capacity(bytes.len());
+                aligned.extend_from_slice(&bytes);
+                match rkyv::check_archived_root::<HashMap<String, CleanMarkerRecord>>(&aligned[..])
+                {
+                    Ok(archived) => archived
+                        .deserialize(&mut rkyv::Infallible)
+                        .unwrap_or_default(),
+                    Err(_) => HashMap::new(),
+                }
             }
         } else {
             HashMap::new()
